@@ -92,7 +92,7 @@ def matBits : Num → Nat
   | .fbig B _ e _ => e.natAbs * bitLen B
   | _ => 0
 
-def matLimit : Nat := 2 ^ 25
+def matLimit : Nat := 2 ^ 28
 
 def small (x y : Num) : Bool := matBits x ≤ matLimit && matBits y ≤ matLimit
 
